@@ -309,6 +309,41 @@ func faultRun(r *prng.R, n int) (string, bool) {
 	return fmt.Sprintf("run cuts=%s restarts=- faildumps=%s", join(cuts), join(fd)), true
 }
 
+// refreshRun: a splitting with refresh ticks of the plugin's background goroutine at some batch boundaries — policies
+// file untouched (`ticks=`: nothing may change) or, with `reload`, rewritten at one boundary (`reloads=`: fresh tree,
+// only totals are promised).
+func refreshRun(r *prng.R, n int, reload bool) (string, bool) {
+	if n < 2 {
+		return "", false
+	}
+	var cuts []int
+	k := r.Range(1, min(n-1, 4))
+	for i := 0; i < k; i++ {
+		cuts = append(cuts, r.Range(1, n-1))
+	}
+	sort.Ints(cuts)
+	cuts = uniq(cuts)
+	ticks := []int{cuts[len(cuts)-1]} // a tick late in the stream: after path parameters were inferred
+	if len(cuts) > 1 && r.Bool() {
+		ticks = append([]int{cuts[r.Intn(len(cuts)-1)]}, ticks...)
+		ticks = uniq(ticks)
+	}
+	if reload {
+		return fmt.Sprintf("run cuts=%s restarts=- reloads=%d", join(cuts), prng.Pick(r, cuts)), true
+	}
+	return fmt.Sprintf("run cuts=%s restarts=- ticks=%s", join(cuts), join(ticks)), true
+}
+
+func uniq(xs []int) []int {
+	var out []int
+	for i, x := range xs {
+		if i == 0 || x != xs[i-1] {
+			out = append(out, x)
+		}
+	}
+	return out
+}
+
 func (s stream) header() []string {
 	cfg := fmt.Sprintf("cfg thr=%d", s.thr)
 	if s.tz != 0 {
@@ -411,6 +446,11 @@ func gen(r *prng.R, f proto.Flags, emitAll func(proto.Case)) {
 					ops = append(ops, op)
 				}
 			}
+			if k%3 == 0 {
+				if op, ok := refreshRun(rr, s.n, false); ok {
+					ops = append(ops, op)
+				}
+			}
 			id++
 			emit(proto.Case{ID: fmt.Sprintf("t%d", id), Ops: ops})
 		}
@@ -467,6 +507,16 @@ func gen(r *prng.R, f proto.Flags, emitAll func(proto.Case)) {
 		}
 		for j := 0; j < 2; j++ {
 			if op, ok := faultRun(rr, s.n); ok {
+				ops = append(ops, op)
+			}
+		}
+		if k%2 == 0 {
+			if op, ok := refreshRun(rr, s.n, false); ok {
+				ops = append(ops, op)
+			}
+		}
+		if k%10 == 5 {
+			if op, ok := refreshRun(rr, s.n, true); ok {
 				ops = append(ops, op)
 			}
 		}
